@@ -3,13 +3,31 @@ package spec
 import (
 	"fmt"
 	"io"
+	"strings"
 
 	"github.com/moorara/algo/errors"
 	"github.com/moorara/algo/grammar"
 	"github.com/moorara/algo/parser/lr"
+	"github.com/moorara/algo/sort"
 
 	"github.com/gardenbed/emerge/internal/ebnf/parser"
 )
+
+// sortedErrors returns the errors combined in err in ascending order of their messages.
+// The grammar is verified by traversing sets in a random order, which must not show in the diagnostics.
+func sortedErrors(err error) []error {
+	multi, ok := err.(interface{ Unwrap() []error })
+	if !ok {
+		return []error{err}
+	}
+
+	errs := multi.Unwrap()
+	sort.Quick(errs, func(lhs, rhs error) int {
+		return strings.Compare(lhs.Error(), rhs.Error())
+	})
+
+	return errs
+}
 
 // parse processes an EBNF input, evaluates it, and returns the result of evaluation.
 // It returns the evaluation outcome or an error if parsing fails.
@@ -363,7 +381,7 @@ func Parse(filename string, src io.Reader) (*Spec, error) {
 
 			grammar := grammar.NewCFG(table.Terminals(), table.NonTerminals(), table.Productions(), "start")
 			if err := grammar.Verify(); err != nil {
-				errs = errors.Append(errs, err)
+				errs = errors.Append(errs, sortedErrors(err)...)
 			}
 
 			precedences := table.Precedences()
